@@ -83,7 +83,7 @@ def rotating_fc_word(n_fc: int, i: int) -> str:
     return "".join("1" if (i >> j) & 1 == 0 else "0" for j in range(n_fc))
 
 
-def pmap_until(fn, items, deadline: float, chunk: int = 12000):
+def pmap_until(fn, items, deadline: float, chunk: int = 6000):
     """bc.pmap over a prefix of `items`: no new chunk is started after `deadline` (time.time()).  The first chunk is
     always run.  Callers zip the (possibly shorter) result list with their inputs and must not claim exhaustiveness
     when it is shorter."""
